@@ -5,7 +5,7 @@
 size_t gh_out_len; size_t gh_out_calls; size_t gh_watch; char gh_watch_val; char gh_out_last; char gh_out_first;
 const char *gh_last_data; size_t gh_last_len;
 unsigned gh_flushes; unsigned gh_err_n; int gh_err_last; unsigned gh_srq_n; unsigned gh_srq_val; unsigned gh_reset_n;
-size_t gh_w; size_t gh_nul; unsigned gh_free_n; void *gh_free_last; void *gh_free_prev; size_t gh_dup_len;
+size_t gh_w; size_t gh_nul; const char *gh_nulp; size_t gh_fill; const char *gh_wp; unsigned gh_free_n; void *gh_free_last; void *gh_free_prev; size_t gh_dup_len;
 unsigned short gh_k;
 int gh_case;
 int gh_trunc; size_t gh_fmt_need;
